@@ -1,7 +1,7 @@
 #!/bin/bash
 # usage: mutate_scratch.sh <patch> <ID> [<ID>...]   - like mutate.py --patch, but never touches /repo or /verif:
 # a scratch worktree of /repo (patch applied) and a scratch copy of /verif whose harness module points at it,
-# both under /tmp/mut.<pid>, removed afterwards. Safe to use while a background run rebuilds from /repo.
+# both under /tmp/mut.<pid>, removed afterwards. Environment: TIER (quick), PART (one part only). Safe to use while a background run rebuilds from /repo.
 set -u
 PATCH=$(readlink -f "$1"); shift
 S=/tmp/mut.$$
@@ -13,7 +13,7 @@ mkdir -p $S/verif/replays $S/verif/evidence
 sed -i "s|=> /repo|=> $S/repo|" $S/verif/harness/go.mod
 sed -i "s|open(\"/repo/go.sum\")|open(\"$S/repo/go.sum\")|" $S/verif/check
 for id in "$@"; do
-  out=$($S/verif/check $id --tier ${TIER:-quick} --no-evidence 2>&1); rc=$?
+  out=$($S/verif/check $id --tier ${TIER:-quick} --no-evidence ${PART:+--part $PART} 2>&1); rc=$?
   echo "check $id vs $(basename $PATCH): rc=$rc $(echo "$out" | grep -E "^C[0-9]+ (quick|thorough):" | cut -c1-200)"
   echo "$out" | grep "signature:" | cut -c1-260 | sort | uniq -c | sort -rn | head -3
 done
